@@ -82,12 +82,12 @@ def run(ctx):
         ctx.broken("coq-build:C14/Check.vo", log[-2000:])
     hx = ctx.go_build("c14")
     q = ctx.quick()
-    sizes = {"expr": 700 if q else 40000, "file": 500 if q else 30000,
+    sizes = {"expr": 500 if q else 40000, "file": 350 if q else 30000,
              "lit": 100 if q else 2000, "layout": 400 if q else 6000, "near": 25 if q else 250,
-             "unparen": 400 if q else 6000, "ungram": 330 if q else 3300}
-    coq_cap = {"expr": 30 if q else 2500, "file": 25 if q else 2000, "near": 110 if q else 4000,
-               "layout": 50 if q else 3000, "int": 120 if q else 5000, "float": 50 if q else 2000,
-               "unparen": 90 if q else 4000, "ungram": 330 if q else 3300}
+             "unparen": 400 if q else 6000, "ungram": 330 if q else 1700}
+    coq_cap = {"expr": 30 if q else 1500, "file": 25 if q else 1200, "near": 110 if q else 2500,
+               "layout": 50 if q else 2000, "int": 120 if q else 3000, "float": 50 if q else 1500,
+               "unparen": 90 if q else 2500, "ungram": 330 if q else 1700}
     tokcap = 40 if q else 160
     obs = {}
     dist = {}
@@ -203,7 +203,7 @@ def run(ctx):
         add("(CLayout %s %s %s)" % (clist([line_term(l) for l in c["lines"]]), "true" if c["final_newline"] else "false", o), c)
 
     ctx.log("evaluating %d cases in Coq" % len(terms))
-    bad_model, bad_spec, bad_sound, bad_accept = par_mismatches(ctx, terms, 1 if q else 4, 6000 if q else 1000)
+    bad_model, bad_spec, bad_sound, bad_accept = par_mismatches(ctx, terms, 1 if q else 6, 6000 if q else 800)
     for i in bad_spec:
         c = refs[i]
         if c["kind"] == "lit":
